@@ -99,7 +99,7 @@ def _shard(args):
         outputs = set()
         unique = len(set(sort_key(x) for x in subset)) == len(subset)
         for perm in itertools.permutations(subset):
-            for pre, post in CONTEXTS:
+            for pre, post in (CONTEXTS if k <= 4 else [((), ())]):      # (sets of 5-6 keys: all 120-720 orders, no context)
                 stream = list(pre) + [tag(kind, perm, vals)] + list(post)
                 res["evals"] += 1
                 r = judge(stream)
@@ -122,7 +122,7 @@ CONTEXTS = [((), ())]
 def run(run):
     global CONTEXTS
     K = 4 if run.tier == "quick" else 6
-    ctx_len = 1 if run.tier == "quick" else 2
+    ctx_len = 1      # (contexts of two tokens on both sides x 720 orders x 210 subsets would be 2e9 evaluations)
     # contexts: every sequence of <= ctx_len other tokens before and after (incl. another tag w/ attrs)
     others = OTHERS + [tag("StartTag", [(None, "b"), (None, "a")], {(None, "b"): "1", (None, "a"): "2"})]
     seqs = [()]
